@@ -20,67 +20,79 @@ import (
 // Every call must succeed with the right echo, and on the wire a body is
 // announced as compressed exactly when it is.
 func c08RequestReuse(t *testing.T, c *ev.Collector) {
+	requestReuse(t, c, "TestC08", []Comp{CompSendMin})
+}
+
+// requestReuse is shared with C05 (test = "TestC05": the recorded request of
+// every call must decode under refwire whatever the Request value went through
+// before), there also with a client that compresses every message.
+func requestReuse(t *testing.T, c *ev.Collector, test string, comps []Comp) {
 	idx := 0
 	for _, p := range AllProtos {
-		for _, sizes := range [][]int{{MinBytes + 200, 5}, {5, MinBytes + 200}, {MinBytes + 200, 5, MinBytes + 300}, {MinBytes + 200, MinBytes - 1, 0}} {
-			idx++
-			if !ev.Mine(idx) {
-				continue
-			}
-			key := fmt.Sprintf("request-reuse/%s/unary/sizes%v", p, sizes)
-			c.Case(key, true)
-			Bubble(t, func() {
-				h := NewHandler(KUnary, func(ctx context.Context, s HStream) error {
-					m, err := s.Receive()
-					if err != nil {
-						return err
+		for _, comp := range comps {
+			for _, sizes := range [][]int{{MinBytes + 200, 5}, {5, MinBytes + 200}, {MinBytes + 200, 5, MinBytes + 300}, {MinBytes + 200, MinBytes - 1, 0}, {MinBytes + 200, 0}, {0, MinBytes + 200, 0, 0}} {
+				idx++
+				if !ev.Mine(idx) {
+					continue
+				}
+				key := fmt.Sprintf("request-reuse/%s/unary/sizes%v", p, sizes)
+				if comp != CompSendMin {
+					key += "/" + string(comp)
+				}
+				c.Case(key, true)
+				Bubble(t, func() {
+					h := NewHandler(KUnary, func(ctx context.Context, s HStream) error {
+						m, err := s.Receive()
+						if err != nil {
+							return err
+						}
+						return s.Send(&BV{Value: append([]byte{'r'}, m.Value...)})
+					})
+					tr := &memhttp.Transport{Handler: h, Proto: 2, SyncCloseReq: true}
+					cl := NewClient(tr, Cfg{Proto: p, Comp: comp, Kind: KUnary, HTTP: 2})
+					req := connect.NewRequest(&BV{})
+					tags := []string{"proto=" + p.String(), "kind=unary", "request-reused"}
+					bad := false
+					for i, sz := range sizes {
+						req.Msg.Value = Payload(sz, byte('a'+i))
+						var res *connect.Response[BV]
+						var err error
+						g := Guarded(func() { res, err = cl.CallUnary(context.Background(), req) }, tr)
+						c.AddTransitions(3)
+						c.AddStates(3)
+						c.AddTraces(1)
+						if g.Hung || g.Panicked {
+							c.Violation(test, "terminates", "hang-or-panic", tags, key, "%s: call %d hung=%v panic=%v", key, i+1, g.Hung, g.Panic)
+							c.Outcome("violation")
+							BailIfStuck(c, g)
+							return
+						}
+						if err != nil || string(res.Msg.Value) != "r"+string(req.Msg.Value) {
+							bad = true
+							c.Violation(test, "lossless", "call-failed", tags, key, "%s: call %d (message of %d encoded bytes, threshold %d, same Request value as the calls before): %v", key, i+1, sz, MinBytes, err)
+							break
+						}
+						ex := tr.Last()
+						encH, _ := encHeaders(p, KUnary)
+						rq := refwire.DecodeRequest(wireProto(p), true, "POST", ex.ReqHeader, ex.ReqBody, true, AnyDecompress)
+						if len(rq.Problems) > 0 {
+							bad = true
+							c.Violation(test, "flag-consistent", "request-problem", tags, key, "%s: call %d: %s=%q, request does not decode: %v", key, i+1, encH, ex.ReqHeader.Get(encH), rq.Problems)
+							break
+						}
+						if comp == CompSendMin && sz < MinBytes && p == PConnect && strings.TrimSpace(ex.ReqHeader.Get(encH)) != "" && ex.ReqHeader.Get(encH) != "identity" {
+							bad = true
+							c.Violation(test, "small-uncompressed", "announced-compressed", tags, key, "%s: call %d: a %d-byte message (threshold %d) went out with %s=%q", key, i+1, sz, MinBytes, encH, ex.ReqHeader.Get(encH))
+							break
+						}
 					}
-					return s.Send(&BV{Value: append([]byte{'r'}, m.Value...)})
-				})
-				tr := &memhttp.Transport{Handler: h, Proto: 2, SyncCloseReq: true}
-				cl := NewClient(tr, Cfg{Proto: p, Comp: CompSendMin, Kind: KUnary, HTTP: 2})
-				req := connect.NewRequest(&BV{})
-				tags := []string{"proto=" + p.String(), "kind=unary", "request-reused"}
-				bad := false
-				for i, sz := range sizes {
-					req.Msg.Value = Payload(sz, byte('a'+i))
-					var res *connect.Response[BV]
-					var err error
-					g := Guarded(func() { res, err = cl.CallUnary(context.Background(), req) }, tr)
-					c.AddTransitions(3)
-					c.AddStates(3)
-					c.AddTraces(1)
-					if g.Hung || g.Panicked {
-						c.Violation("TestC08", "terminates", "hang-or-panic", tags, key, "%s: call %d hung=%v panic=%v", key, i+1, g.Hung, g.Panic)
+					if bad {
 						c.Outcome("violation")
-						BailIfStuck(c, g)
-						return
+					} else {
+						c.Outcome("ok")
 					}
-					if err != nil || string(res.Msg.Value) != "r"+string(req.Msg.Value) {
-						bad = true
-						c.Violation("TestC08", "lossless", "call-failed", tags, key, "%s: call %d (message of %d encoded bytes, threshold %d, same Request value as the calls before): %v", key, i+1, sz, MinBytes, err)
-						break
-					}
-					ex := tr.Last()
-					encH, _ := encHeaders(p, KUnary)
-					rq := refwire.DecodeRequest(wireProto(p), true, "POST", ex.ReqHeader, ex.ReqBody, true, AnyDecompress)
-					if len(rq.Problems) > 0 {
-						bad = true
-						c.Violation("TestC08", "flag-consistent", "request-problem", tags, key, "%s: call %d: %s=%q, request does not decode: %v", key, i+1, encH, ex.ReqHeader.Get(encH), rq.Problems)
-						break
-					}
-					if sz < MinBytes && p == PConnect && strings.TrimSpace(ex.ReqHeader.Get(encH)) != "" && ex.ReqHeader.Get(encH) != "identity" {
-						bad = true
-						c.Violation("TestC08", "small-uncompressed", "announced-compressed", tags, key, "%s: call %d: a %d-byte message (threshold %d) went out with %s=%q", key, i+1, sz, MinBytes, encH, ex.ReqHeader.Get(encH))
-						break
-					}
-				}
-				if bad {
-					c.Outcome("violation")
-				} else {
-					c.Outcome("ok")
-				}
-			})
+				})
+			}
 		}
 	}
 }
